@@ -254,6 +254,53 @@ impl Property for C06 {
             st.count("later_documents_change_nested_schema");
         }
 
+        // sibling names that differ only in their namespace prefix (link / atom:link) are outside C01's domain but
+        // inside this statement's: judged on the returned Element tree, where full XML names are kept
+        {
+            let mut dom2 = Domain::general();
+            dom2.no_prefix_clash = false;
+            dom2.max_nodes = 20;
+            dom2.elem_classes = vec![("plain", 6), ("prefixed", 6), ("multicolon", 1), ("case", 1)];
+            dom2.attr_classes = vec![("plain", 6), ("prefixed", 6)];
+            let p2 = prepare(tapes, &dom2, &SurfaceCfg::plain());
+            let clash = |n: &Node| -> bool {
+                fn go(n: &Node) -> bool {
+                    let names: Vec<&str> = n.children().map(|c| c.name.as_str()).collect();
+                    let mut hit = false;
+                    for (i, a) in names.iter().enumerate() {
+                        for b in names.iter().skip(i + 1) {
+                            if a != b && local_of(a) == local_of(b) {
+                                hit = true;
+                            }
+                        }
+                    }
+                    hit || n.children().any(go)
+                }
+                go(n)
+            };
+            if p2.case.docs.iter().any(clash) {
+                st.count("histories_with_names_differing_only_in_prefix");
+            }
+            let reference = crate::refinf::infer_docs(&p2.case.docs);
+            let orders: Vec<Vec<usize>> = {
+                let k2 = p2.bytes.len();
+                let fwd: Vec<usize> = (0..k2).collect();
+                let mut rev = fwd.clone();
+                rev.reverse();
+                let mut again = fwd.clone();
+                again.push(0);
+                vec![fwd, rev, again]
+            };
+            for ord in orders {
+                let seq: Vec<Vec<u8>> = ord.iter().map(|i| p2.bytes[*i].clone()).collect();
+                let r = sut::parse_seq(&seq).map_err(|(i, e)| Failure::new(format!("prefix-clash history: document #{} rejected: {}", ord[i] + 1, e)).with_detail(describe_case(&p2)))?;
+                compare_element(&reference, &r, "").map_err(|e| {
+                    Failure::new(format!("documents supplied in the order {:?}: the returned element tree is not the one inferred from the union: {}", ord.iter().map(|i| i + 1).collect::<Vec<_>>(), e))
+                        .with_detail(describe_case(&p2))
+                })?;
+            }
+        }
+
         // history 2: a permutation of the members
         if k >= 2 {
             let docs2: Vec<Vec<u8>> = h.perm.iter().map(|i| p.bytes[*i].clone()).collect();
@@ -318,7 +365,7 @@ impl Property for C06 {
         }
     }
     fn rule(&self) -> String {
-        "tape-decoded histories parse(D1), extend(...) over 1..5 generated documents with members supplied again, element-less inputs interleaved (empty, blanks, comment-only, declaration-only, text-only), a random permutation of the members, and (one history in three) a damaged member at the end. After every step the schema abstraction of the rendering (fields, optionality, multiplicity, text flags, nesting; order/identifiers/struct names ignored) must equal the reference inference over the union of the documents supplied so far and be monotone w.r.t. the previous step; the permuted history must end in the same schema; a tail on which an independent reader pass finds an error must yield Err. A re-supply family adds large single documents (an element seen n times in total, n around 256 and 65536; thorough also 128, 1024, 32768, 131073) supplied, supplied again, followed by an element-less input and a third supply. Non-trivial = k >= 2 and the later documents change the schema below the root; distinct by hash of documents and permutation.".into()
+        "tape-decoded histories parse(D1), extend(...) over 1..5 generated documents with members supplied again, element-less inputs interleaved (empty, blanks, comment-only, declaration-only, text-only), a random permutation of the members, and (one history in three) a damaged member at the end. After every step the schema abstraction of the rendering (fields, optionality, multiplicity, text flags, nesting; order/identifiers/struct names ignored) must equal the reference inference over the union of the documents supplied so far and be monotone w.r.t. the previous step; the permuted history must end in the same schema; a tail on which an independent reader pass finds an error must yield Err. A second, tree-level part uses pools in which sibling names may differ only in their namespace prefix (link / atom:link): forward, reversed and first-document-again orders must return the element tree inferred from the union (full XML names, optionality, multiplicity, text). A re-supply family adds large single documents (an element seen n times in total, n around 256 and 65536; thorough also 128, 1024, 32768, 131073) supplied, supplied again, followed by an element-less input and a third supply. Non-trivial = k >= 2 and the later documents change the schema below the root; distinct by hash of documents and permutation.".into()
     }
     fn assumptions(&self) -> Vec<String> {
         vec![
@@ -332,7 +379,7 @@ impl Property for C06 {
         describe_case(&prepare(tapes, &dom, &SurfaceCfg::full()))
     }
     fn health(&self, _tier: Tier) -> Vec<(&'static str, u64)> {
-        vec![("nontrivial", 3000), ("true_permutations", 3000), ("member_supplied_again", 3000), ("element_less_inputs", 3000), ("failed_extension_reported", 1000)]
+        vec![("nontrivial", 3000), ("true_permutations", 3000), ("member_supplied_again", 3000), ("element_less_inputs", 3000), ("failed_extension_reported", 1000), ("histories_with_names_differing_only_in_prefix", 1000)]
     }
 }
 
